@@ -8,7 +8,7 @@ use std::cell::RefCell;
 use std::collections::{BTreeMap, BTreeSet};
 use std::time::Duration;
 use tensor_blob::{BlobConfig, BlobStore, BlobWriter, PutOptions};
-use tensor_store::{ScalarValue, TensorStore, TensorValue};
+use tensor_store::{ScalarValue, TensorValue};
 
 #[derive(Clone, Debug, Serialize, Deserialize)]
 pub enum Dmg {
@@ -175,7 +175,7 @@ impl Run {
             .with_chunk_size(c)
             .with_gc_batch_size(1_000_000)
             .with_gc_min_age(Duration::from_secs(if real_clock { 0 } else { SIM_MIN_AGE_SECS }));
-        let blob = block_on(BlobStore::new(TensorStore::new(), cfg)).map_err(|e| Fail::new("harness", e.to_string()))?;
+        let blob = block_on(BlobStore::new(empty_store(!real_clock), cfg)).map_err(|e| Fail::new("harness", e.to_string()))?;
         Ok(Self {
             c,
             real_clock,
